@@ -97,6 +97,37 @@ func VfC12_Rejected() {
 	vfAssert("C12.rejected.same-verdict", vfAnd(e0 != nil, e1 != nil))
 }
 
+// VfC12_RejectedLeavesNoTrace: an input the library rejects because of a type
+// it does not support in that place (blockaddress of a function in another
+// address space, written with the pointer type LLVM gives it) leaves no trace:
+// no write to package-level state, and a following ordinary blockaddress
+// module is accepted and printed as in a fresh process.
+//
+//vf:unwind 400
+func VfC12_RejectedLeavesNoTrace() {
+	a := hLetterIn("a", 'a', 'c')
+	plain := "define void @" + a + "() {\nbb:\n\tret void\n}\n@t = global i8* blockaddress(@" + a + ", %bb)\n"
+	m0, e0 := ParseString("a.ll", plain)
+	var s0 string
+	if e0 == nil {
+		s0 = m0.String()
+	}
+	odd := "define void @f() addrspace(1) {\nbb:\n\tret void\n}\n@t = global i8 addrspace(1)* blockaddress(@f, %bb)\n"
+	vfTrackShared(true)
+	_, eo := ParseString("o.ll", odd)
+	_ = eo
+	writes := vfSharedWrites()
+	m1, e1 := ParseString("b.ll", plain)
+	var s1 string
+	if e1 == nil {
+		s1 = m1.String()
+	}
+	vfReach("C12.rejected-no-trace")
+	vfAssert("C12.no-trace.no-shared-writes", writes == 0)
+	vfAssert("C12.no-trace.same-verdict", vfAnd(e0 == nil, e1 == nil))
+	vfAssert("C12.no-trace.same-output", vfAnd(s0 == s1, m0.String() == s0))
+}
+
 // VfC12_EntryPoints: ParseBytes is ParseString on the same content.
 //
 //vf:unwind 400
